@@ -185,6 +185,7 @@ func stateSigs(res *Result) []string {
 
 func runOne(t *testing.T, p *Profile, runSeed uint64, rf *ReplayFile) *RunOutcome {
 	if p.Runner != nil {
+		unitT = t
 		return p.Runner(p, runSeed, rf)
 	}
 	return runEngineA(t, p, runSeed, rf)
